@@ -165,6 +165,8 @@ def build(d: Path, scn, out_name="out.nc", record_output=True, record_ibm=False,
         cols.append("X0")
     if "kind" in pv:
         cols.append("kind")
+    if rel.get("active_col"):
+        cols.append("active")   # the state's own flag given per release row as 0 / 1
     placed = []
     first_step = min((r["step"] for r in rel["rows"]), default=0)
     for r in rel["rows"]:
@@ -184,6 +186,8 @@ def build(d: Path, scn, out_name="out.nc", record_output=True, record_ibm=False,
             row.append(repr(float(x)))
         if "kind" in pv:
             row.append(r["tag"] % 3)
+        if rel.get("active_col"):
+            row.append(0 if (rel["active_col"] >> (r["tag"] % 8)) & 1 else 1)
         rows.append(row)
         placed.append(dict(step=r["step"], x=x, y=y, z=z, mult=r["mult"], tag=r["tag"]))
     e2e.write_release(d / "rel.rls", rows, cols)
